@@ -1,12 +1,131 @@
-//! Weak-memory sampling with Miri (seeded scheduler + store-buffer emulation) for C15-C17. Filled in
-//! by `sim miri`; the component checks report the last Miri result in their evidence.
+//! Weak-memory sampling with Miri for C15-C17: the crate /verif/miri #[path]-includes the production
+//! cursor.rs / context.rs / wait.rs / tx_dependency.rs with std primitives; Miri's scheduler is seeded
+//! and it emulates store buffers, so reorderings beyond sequential consistency that the declared
+//! orderings permit are SAMPLED here (not covered). A failing seed replays exactly (`-Zmiri-seed`).
 
 use serde_json::{Value, json};
+use std::path::Path;
+use std::process::Command;
+
+fn scenarios(check: &str) -> &'static [&'static str] {
+    match check {
+        "C15" => &["cursor", "frontier"],
+        "C16" => &["dependency"],
+        "C17" => &["wait"],
+        _ => &[],
+    }
+}
+
+fn miri_dir() -> std::path::PathBuf {
+    crate::paths::verif_root().join("miri")
+}
+
+fn run_miri(scenario: &str, flags: &str) -> Option<(bool, String)> {
+    let out = Command::new("cargo")
+        .current_dir(miri_dir())
+        .args(["+nightly", "miri", "run", "--offline", "--", scenario])
+        .env("MIRIFLAGS", flags)
+        .env("CARGO_NET_OFFLINE", "true")
+        .output()
+        .ok()?;
+    let text = format!("{}{}", String::from_utf8_lossy(&out.stdout), String::from_utf8_lossy(&out.stderr));
+    Some((out.status.success(), text))
+}
+
+pub struct MiriOutcome {
+    pub report: Value,
+    /// (scenario, failing miri seed, message)
+    pub violations: Vec<(String, u64, String)>,
+    pub harness_errors: Vec<String>,
+}
+
+/// Run the Miri scenarios of `check` over a seed range derived from VERIF_SEED.
+pub fn run(check: &str, thorough: bool, verif_seed: u64) -> MiriOutcome {
+    let count: u64 = std::env::var("VERIF_MIRI_SEEDS").ok().and_then(|s| s.parse().ok()).unwrap_or(if thorough { 512 } else { 24 });
+    let start = (verif_seed % 10_000) * 1_000;
+    let mut per_scenario = Vec::new();
+    let mut violations = Vec::new();
+    let mut harness_errors = Vec::new();
+    if count == 0 {
+        return MiriOutcome { report: json!({"status": "skipped (VERIF_MIRI_SEEDS=0)"}), violations, harness_errors };
+    }
+    for sc in scenarios(check) {
+        let t0 = std::time::Instant::now();
+        let flags = format!("-Zmiri-many-seeds={}..{} -Zmiri-preemption-rate=0.1", start, start + count);
+        match run_miri(sc, &flags) {
+            None => harness_errors.push(format!("cannot run cargo +nightly miri for scenario {sc}")),
+            Some((ok, text)) => {
+                let passed = text.matches(&format!("ok {sc}")).count() as u64;
+                let violated = text.contains("VIOLATION");
+                if !ok || violated {
+                    if violated || text.contains("Undefined Behavior") || text.contains("data race") || text.contains("deadlock") {
+                        // find the failing seed by replaying seeds one by one
+                        let mut found = None;
+                        for seed in start..start + count {
+                            if let Some((ok1, t1)) = run_miri(sc, &format!("-Zmiri-seed={seed} -Zmiri-preemption-rate=0.1")) &&
+                                (!ok1 || t1.contains("VIOLATION"))
+                            {
+                                let msg = t1
+                                    .lines()
+                                    .find(|l| l.contains("VIOLATION") || l.contains("error:"))
+                                    .unwrap_or("miri reported a failure")
+                                    .to_string();
+                                found = Some((seed, msg));
+                                break;
+                            }
+                        }
+                        match found {
+                            Some((seed, msg)) => violations.push((sc.to_string(), seed, msg)),
+                            None => harness_errors.push(format!("miri scenario {sc} failed in many-seeds mode but no single seed reproduces it")),
+                        }
+                    } else {
+                        let tail: String = text.lines().rev().take(6).collect::<Vec<_>>().join(" | ");
+                        harness_errors.push(format!("miri scenario {sc} could not run: {tail}"));
+                    }
+                }
+                per_scenario.push(json!({"scenario": sc, "miri_seeds": [start, start + count], "seeds_passed": passed, "wall_s": t0.elapsed().as_secs_f64()}));
+            }
+        }
+    }
+    let report = json!({
+        "status": if harness_errors.is_empty() { "ran" } else { "error" },
+        "tool": "cargo +nightly miri run, -Zmiri-many-seeds, -Zmiri-preemption-rate=0.1",
+        "what": "production cursor.rs/context.rs/wait.rs/tx_dependency.rs included by #[path] with std atomics, parking_lot and std::thread; Miri's seeded scheduler + store-buffer emulation",
+        "scenarios": per_scenario,
+        "note": "sampling of a weak-memory emulation, not coverage of the memory model",
+    });
+    let path = miri_dir().join(format!("last-{check}.json"));
+    let _ = std::fs::write(path, serde_json::to_string_pretty(&report).unwrap());
+    MiriOutcome { report, violations, harness_errors }
+}
 
 pub fn last_report(check: &str) -> Value {
-    let path = crate::paths::verif_root().join("miri").join(format!("last-{check}.json"));
+    let path = miri_dir().join(format!("last-{check}.json"));
     match std::fs::read_to_string(path) {
         Ok(t) => serde_json::from_str(&t).unwrap_or(json!({"status": "unreadable"})),
         Err(_) => json!({"status": "not run in this invocation"}),
+    }
+}
+
+/// Replay of a Miri finding: `{"miri": {"scenario": .., "seed": ..}}` in the replay file's `extra`.
+pub fn replay(extra: &Value, path: &Path, property: &str, class: &str) -> i32 {
+    let sc = extra["miri"]["scenario"].as_str().unwrap_or("cursor");
+    let seed = extra["miri"]["seed"].as_u64().unwrap_or(0);
+    match run_miri(sc, &format!("-Zmiri-seed={seed} -Zmiri-preemption-rate=0.1")) {
+        Some((ok, text)) if !ok || text.contains("VIOLATION") => {
+            println!("VIOLATION property={property} replay={} class={class}", path.display());
+            for l in text.lines().filter(|l| l.contains("VIOLATION") || l.contains("error:")).take(3) {
+                println!("  detail={l}");
+            }
+            1
+        }
+        Some(_) => {
+            println!("replay did not reproduce the violation (class={class})");
+            0
+        }
+        None => {
+            println!("HARNESS-ERROR cannot run miri");
+            2
+        }
     }
 }
